@@ -544,6 +544,8 @@ var fixedSnippets = func() []snippet {
 		`import`, `import 1`, `import "a"`, `import a.`, `import a as`, `import a as 1`, `from`, `from a`, `from a import`, `from a import (`, `from a import (b,`, `from a import b as`, `from . import x`, `from a import *`, `import ../x`, `import a/b`, `from a.b.c import d as e, f`,
 		`go`, `go f`, `go 1`, `go func`, `go func(){}`, `defer`, `defer f`, `defer 1`, `defer func(){}`, `break`, `continue`, `break 1`, `struct`, `struct {}`, `as`, `in`, `not`, `not in`, `x not`, `x not y`, `x in`, `in x`, `range`, `range x`, `x := range`, `range range`,
 		`x ?`, `x ? 1`, `x ? 1 :`, `x ? 1 : 2 ? 3 : 4`, `x ? y ? 1 : 2 : 3`, `? :`, `x |`, `| x`, `x | | y`, `x <-`, `<-`, `<- <-x`, `x <- <- y`, `!`, `-`, `!!`, `- -`, `1 +`, `+ 1`, `1 + + 1`, `1 * / 2`, `a && `, `|| b`, `1 == `, `== 1`, `1 < 2 < 3`, `**`, `2 ** `, `&`, `x & & y`, `,`, `;`, `:`, `;;`, `,,`, `x,`, `x;`, `:=`, `=`, `=>`, `->`, `...`, `@`, `$x`, `x~y`, `x^y`, `\`)
+	add("template-comment", `'a{# note}b'`, `'a{/* x */}b'`, `'{/**/}'`, `'{ /* unit */ }'`, `'v={x}{ /* u */ }'`, `'{#}'`, `'{//}'`, "'{// c\n}'", "'{# c\n1}'", `'{/* a */ 1 /* b */}'`, `'{ ; }'`, `'{;;}'`, `'{/*}'`, `'{*/}'`,
+		`'{x /* c */}'`, `'{/* c */ x}'`, `'{1}{#}{2}'`, `'{ # }'`, "'{\n}'", "'{\t}'", "'{\r\n}'", `'{\}'`, `'{"#"}'`, `'{"//"}'`)
 	add("numeric", `0`, `00`, `007`, `08`, `09`, `0x`, `0X1`, `0x1g`, `0xffffffffffffffff`, `0xfffffffffffffffff`, `0b`, `0b2`, `0b101`, `0b11111111111111111111111111111111111111111111111111111111111111111`, `0o`, `0o8`, `0o17`,
 		`1e`, `1e+`, `1e-`, `1e9`, `1e999`, `1e-999`, `1E5`, `1.e5`, `1.`, `1..2`, `1.2.3`, `.5`, `1.5.`, `1_000`, `1__0`, `_1`, `1_`, `9223372036854775807`, `9223372036854775808`, `-9223372036854775808`, `-9223372036854775809`, `99999999999999999999999999999999999999`,
 		`1.7976931348623157e308`, `1.7976931348623159e308`, `4.9e-324`, `1e400`, `0.0000000000000000000000000000000000000000000000000000000001`, `1x`, `1a`, `1if`, `1.foo`, `1.5.foo`, `1 .foo`, `1[0]`, `1()`, `1.5()`, `0x1.8p1`, `1e1e1`, `0e0`, `0.0`, `-0`, `-0.0`, `1/0`, `1%0`, `1.0/0`, `1<<64`, `1<<-1`, `1>>64`, `2**64`, `2**-1`, `2**0.5`, `0**0`, `(-8)**(1/3)`,
